@@ -696,7 +696,7 @@ fn run_query(r: &mut Runner, rt: &tokio::runtime::Runtime, ses: &Session, z: &Zo
             if !roles.complete() {
                 // server side: what is missing says it all
             } else if roles.sub != "direct" {
-                f.push_str(if roles.ce == z.apex { ",ce=apex" } else { ",ce=inner" });
+                // how far below the closest (provable) encloser the query name sits
                 f.push_str(if q.len() - roles.ce.len() > 1 { ",depth=2+" } else { ",depth=1" });
             } else {
                 if *q == z.apex {
